@@ -621,7 +621,7 @@ func c11RunCase(ctx *Ctx, idx int, hostile bool) {
 	installClock()
 	clockAutoTick = 100 * time.Nanosecond
 	envErr := ""
-	panicked, msg := Guard(func() {
+	panicked, msg, stuck := GuardStuck(func() {
 		fanMap, err := internal.InitializeObjects()
 		if err != nil {
 			envErr = err.Error()
@@ -678,6 +678,12 @@ func c11RunCase(ctx *Ctx, idx int, hostile bool) {
 			_ = c.UpdateFanSpeed()
 		}
 	})
+	if stuck != "" {
+		// instantiating and running the accepted configuration never comes back: a lock inside fan2go is waited for for minutes
+		ctx.Violation("accepted-but-deadlocks:"+class, fmt.Sprintf("a fan2go goroutine has been waiting for a lock for minutes:\n%s\n--- features %v\n%s", stuck, g.notes, text), replay)
+		ctx.Abort = true
+		panic(abortBatch{})
+	}
 	if panicked {
 		ctx.Violation("accepted-but-crashes:"+class, fmt.Sprintf("%s\n--- features %v\n%s", firstLines(msg, 12), g.notes, text), replay)
 		return
